@@ -1,6 +1,7 @@
 //! Harness for C14 / C15 / C16: drives the real sink adaptors, `MergeSource`, and the unsync
 //! channel with generated schedules, writes the transcript for the Lean driver `hvdrv_sink`
 //! and evaluates the properties on the real code with independent oracles.
+mod c14;
 mod c15;
 mod c16;
 mod wk;
@@ -31,6 +32,7 @@ fn main() {
     let mut rec = match args.mode.as_str() {
         "c16" => Recorder::new(c16::RULE),
         "c15" => Recorder::new(c15::RULE),
+        "c14" => Recorder::new(c14::RULE),
         m => {
             eprintln!("unknown mode {m}");
             std::process::exit(2);
@@ -41,6 +43,7 @@ fn main() {
             match args.mode.as_str() {
                 "c16" => c16::replay_case(no, &tag, &lines, &mut rec),
                 "c15" => c15::replay_case(no, &tag, &lines, &mut rec),
+                "c14" => c14::replay_case(no, &tag, &lines, &mut rec),
                 _ => unreachable!(),
             }
         }
@@ -48,6 +51,7 @@ fn main() {
         match args.mode.as_str() {
             "c16" => c16::generate(&args, &mut rec),
             "c15" => c15::generate(&args, &mut rec),
+            "c14" => c14::generate(&args, &mut rec),
             _ => unreachable!(),
         }
     }
